@@ -827,16 +827,12 @@ def _present(value):
     return value is not None and value != ""
 
 
-def _required_holds(rule, value, true_code=False, empty_code=False):
+def _required_holds(rule, value):
     """'If value is True, the part is required.  The value may also be a sequence of strings; the value of the part
-    must be present in this collection to validate.'  (False / None: no rule.)
-    true_code / empty_code: the CODE's readings (`value is None`; an empty collection is skipped) — used only to
-    predict the verdict of the open findings KF-C15-c / KF-C15-d"""
+    must be present in this collection to validate.'  (False / None: no rule; an empty collection has no member.)"""
     if rule is True:
-        return (value is not None) if true_code else _present(value)
+        return _present(value)
     if rule is None or rule is False:
-        return True
-    if empty_code and len(rule) == 0:
         return True
     return value in rule
 
@@ -851,7 +847,7 @@ def _forbidden_holds(rule, value):
     return value not in rule
 
 
-def _http_documented(v, value, lib, true_code=False, empty_code=False):
+def _http_documented(v, value, lib):
     req, forb, known_parts = _http_params(v)
     if any(p not in HTTP_VOCABULARY for p in known_parts):
         return None, None  # all_parts outside urlparse's vocabulary: no promise
@@ -868,7 +864,7 @@ def _http_documented(v, value, lib, true_code=False, empty_code=False):
     violated = []
     if any(vals[p] is ValueError for p in known_parts):
         violated.append("bad_format")
-    if any(not _required_holds(req.get(p), vals[p], true_code, empty_code) for p in known_parts if vals[p] is not ValueError):
+    if any(not _required_holds(req.get(p), vals[p]) for p in known_parts if vals[p] is not ValueError):
         violated.append("required_part")
     if any(not _forbidden_holds(forb.get(p), vals[p]) for p in known_parts if vals[p] is not ValueError):
         violated.append("forbidden_part")
@@ -876,8 +872,8 @@ def _http_documented(v, value, lib, true_code=False, empty_code=False):
 
 
 def _http_quirks(v, value, lib):
-    """which of the classes KF-C15-c (True entry of required_parts on a known part that is the empty text) and
-    KF-C15-d (empty collection as entry for a known part) the case is in"""
+    """coverage: is there a True entry of required_parts on a known part that is the empty text (former KF-C15-c), an
+    empty collection as entry for a known part (former KF-C15-d)?"""
     req, _, known_parts = _http_params(v)
     try:
         vals = _http_part_values(lib.urlparse(value))
@@ -1626,9 +1622,9 @@ def url_tags(case, obs):
         if v["cls"] == "HTTPURLValidator":
             in_c, in_d = _http_quirks(v, val, lib_)
             if in_c:
-                t.append("class:KF-C15-c(required True on an empty part)")
+                t.append("url-param:required-True-on-an-empty-part")
             if in_d:
-                t.append("class:KF-C15-d(required empty collection)")
+                t.append("url-param:required-empty-collection")
         if v["cls"] == "URLValidator" and v.get("allowed_schemes") is not None and "" in v["allowed_schemes"]:
             t.append("url-param:allowed_schemes-lists-empty")
             if six_scheme_empty(lib_, val):
@@ -1861,9 +1857,7 @@ class C15(Property):
     theorems = ["Flatland.C15.Proofs." + t for t in (
         "decides_partial", "C15_partial", "C15_full_fails", "setWith_nontext_key_reported", "setWith_bad_pairs_valid",
         "decides_urlValidator_partial", "schemeAllowed_eq_code", "C15_empty_scheme_always_blocked", "C15_UrlFull_fails", "urlValidate_eq", "urlPartsLoop_eq",
-        "requiredHolds_eq_code", "required_true_on_empty_differs", "required_empty_collection_differs", "partOkDoc_eq_code",
-        "C15_required_true_never_fails", "C15_required_empty_collection_ignored", "C15_HttpFull_fails_with_value", "C15_full_fails_with_value",
-        "http_rule_honoured_default_partial", "C15_HttpRuleHonoured_fails",
+        "reqFails_eq", "forbFails_eq", "oldRequired_fails", "C15_full_fails_with_value", "http_rule_honoured",
         "canonicalizer_idempotent_partial", "canonicalizer_faithful_partial", "canonicalizer_not_idempotent", "canonicalizer_idempotent_fails",
         "canonicalizer_faithful_fails", "canonicalizer_changes_host",
         "decides_httpURL_partial", "httpURL_key", "httpPartsLoop_eq", "attr_table", "http_no_value_accepted", "C15_HttpFull_fails",
@@ -1904,11 +1898,15 @@ class C15(Property):
         "IsEmail: the docstring says the IDN domain must be 'less than 253 characters', the code accepts exactly 253; spec B and the oracle follow the code's reading (<= 253, the DNS limit) — a documentation discrepancy, not counted as a finding",
     ]
     level_text = "proof"
-    level_note = ("partial: the per-class decision theorems (now including URLValidator, HTTPURLValidator, URLCanonicalizer over the opaque parse record: verdict <=> the docstring's "
-                  "predicate on the parsed parts, which message key is noted, the canonical value is the rebuild of the kept parts, untouched on failure, idempotent when the rebuild is stable), "
-                  "Luhn equivalence, first-occurrence, value preservation and message theorems are proved for all inputs on model A; IsEmail is decided relative to the opaque idna conversion; "
-                  "C15_Full is refuted by the KF-C15-a witness (HTTPURLValidator on an element without a value: C15_full_fails) and C15_partial proves everything outside that class; "
-                  "the default all_parts is regenerated from the source and must be the ten documented names (default_all_parts_is_vocabulary), so a rule on ANY documented part name is honoured (http_rule_honoured; KF-C15-b repaired in /repo); urlparse itself, idna and the derived netloc attributes stay opaque")
+    level_note = ("partial: the per-class decision theorems, Luhn equivalence, first-occurrence, value preservation and message theorems are proved for all inputs on model A; "
+                  "IsEmail is decided relative to the opaque idna conversion.  URL validators (over the opaque parse record; spec B is the DOCSTRINGS' predicate, not the code's): "
+                  "'the URL has the part' = the part has a non-empty value, read once for required_parts and forbidden_parts and for all ten names; an empty collection is never satisfied; the scheme wildcard is exactly ('*',); "
+                  "scheme membership also for '' when listed.  decides_urlValidator_partial (everything outside KF-C15-g: no scheme, '' listed — refuted in full by C15_empty_scheme_always_blocked / C15_UrlFull_fails); "
+                  "decides_httpURL_partial excludes only KF-C15-a (no value: http_no_value_accepted / C15_HttpFull_fails) — KF-C15-c / -d are repaired in /repo, the code's required-reading IS the docstring's (reqFails_eq; oldRequired_fails is the counter-model of the old code); "
+                  "http_rule_honoured holds again in full for every documented part name under the docstring reading (default all_parts regenerated: default_all_parts_is_vocabulary); which message key is noted (httpURL_key, urlValidate_eq); "
+                  "URLCanonicalizer: decides_urlCanonicalizer (verdict), canonicalizer_value (the rebuild of the kept parts), canonicalizer_failure_keeps_value; the promise about the RESULT (canonFaithful: re-parsed, no discarded part, the others kept) and idempotence only as "
+                  "canonicalizer_faithful_partial / canonicalizer_idempotent_partial under the explicit hypothesis that the rebuilt text parses back to the kept parts — false in general: canonicalizer_not_idempotent ('////' -> '//' -> ''), canonicalizer_changes_host (KF-C15-e); "
+                  "C15_Full is refuted (C15_full_fails, C15_full_fails_with_value), C15_partial proves everything outside Spec.excluded (KF-C15-a, -g); HTTPURLValidator / URLCanonicalizer on values that are not text are outside the model (Spec.inModel); urlparse itself, idna and the derived netloc attributes stay opaque")
     technique = "Lean 4 model + theorems (refinement to the documented predicate per class) + differential correspondence + Python oracle"
     rule = ("every validator class x random parameterisations x String/Integer/Boolean elements set with None / adapted / unadapted text / blank / never set, "
             "List/Array with 0-5 members, members with duplicates at random positions, Dicts set with dict / pairs / flat / non-iterable / malformed raw values, "
@@ -1993,6 +1991,15 @@ class C15(Property):
                     "build": {"kind": "String", "name": "url", "set": "h"}})
         out.append({"v": {"cls": "HTTPURLValidator", "forbidden_parts": [["netloc", True]], "required_parts": []},
                     "build": {"kind": "String", "name": "url", "set": "http://h/"}})
+        # fixed KF-C15-c (`required is True` tested `value is None`: never failed on a part that is '') and KF-C15-d (an
+        # empty collection was skipped): False, one message (required_part, each key with its own text)
+        kmr = [[k, "K:" + k + " %(label)s"] for k in URL_KEYS["HTTPURLValidator"]]
+        for rules, url in (([["path", True]], "http://h"), ([["query", True]], "http://h/p"), ([["fragment", True]], "http://h/p?q"),
+                           ([["username", True]], "http://@h/"), ([["scheme", []]], "ftp://h/"), ([["hostname", []]], "http://h/"),
+                           ([["params", True], ["scheme", []]], "http://h/p;x")):
+            out.append({"v": {"cls": "HTTPURLValidator", "required_parts": rules, "forbidden_parts": [], "messages": kmr},
+                        "build": {"kind": "String", "name": "url", "set": url}})
+            out.append({"v": {"cls": "HTTPURLValidator", "required_parts": rules}, "build": {"kind": "String", "name": "url", "set": url}})
         # netloc is visited second: a URL violating a netloc rule AND a later part's rule gets the netloc message,
         # one violating a scheme rule and a netloc rule gets the scheme message (every key with its own text)
         km = [[k, "K:" + k + " %(label)s"] for k in URL_KEYS["HTTPURLValidator"]]
@@ -2149,19 +2156,6 @@ class C15(Property):
                 and cl == "verdict-equals-documented-condition" and failure.get("observed") is True \
                 and failure.get("_errors_unchanged") and failure.get("_warnings_unchanged") and failure.get("_value_unchanged"):
             return "KF-C15-a"
-        unchanged = failure.get("_errors_unchanged") and failure.get("_warnings_unchanged") and failure.get("_value_unchanged")
-        if v["cls"] == "HTTPURLValidator" and isinstance(view.get("value"), str) and case["build"]["kind"] == "String" \
-                and cl == "verdict-equals-documented-condition" and failure.get("expected") is False \
-                and failure.get("observed") is True and unchanged:
-            # KF-C15-c / -d: the case is in the class AND the code's reading of exactly that entry predicts True
-            lib = lib_of(v) or _urlparse
-            in_c, in_d = _http_quirks(v, view["value"], lib)
-            if in_c and _http_documented(v, view["value"], lib, true_code=True)[0] is True:
-                return "KF-C15-c"
-            if in_d and _http_documented(v, view["value"], lib, empty_code=True)[0] is True:
-                return "KF-C15-d"
-            if in_c and in_d and _http_documented(v, view["value"], lib, true_code=True, empty_code=True)[0] is True:
-                return "KF-C15-c"
         if v["cls"] == "URLValidator" and isinstance(view.get("value"), str) and case["build"]["kind"] == "String" \
                 and ((cl == "verdict-equals-documented-condition" and failure.get("expected") is True
                       and failure.get("observed") is False and failure.get("_value_unchanged"))
